@@ -321,6 +321,70 @@ pub fn constructs(thorough: bool) -> Vec<Construct> {
             }));
         }
     }
+    // hand-written iterators whose declared result type is not the plain `(bool, T)`: a union of
+    // two-component tuples, a union second component, any, never - under every consumer
+    for (rname, rtext) in [
+        ("(bool, int)/(bool, string)", "(bool, int) | (bool, string)"),
+        ("(bool, int/string)", "(bool, int|string)"),
+        ("(bool, any)", "(bool, any)"),
+        ("(bool, int)/(bool, int, int)", "(bool, int) | (bool, int, int)"),
+        ("(bool, [int])/(bool, [float])", "(bool, [int]) | (bool, [float])"),
+    ] {
+        let it = format!("{{ i := mut 0; () -> {rtext} {{ i += 1; if *i == 1 {{ return (true, OPERAND) }}; return (false, OPERAND) }} }}");
+        for (cname, ctext) in [
+            ("$]", "IT $]"),
+            ("for", "acc := mut [any] []; for e in IT { acc += [e] }; *acc"),
+            ("@", "IT @ (e: any) -> any { return e } $]"),
+            ("?", "IT ? (e: any) -> bool { return true } $]"),
+            ("? int", "IT ? int $]"),
+            ("$ init", "IT $ 0 (a: any, e: any) -> int { return 1 }"),
+            ("partition", "IT \\ (e: any) -> bool { return true }"),
+            ("manual", "g := IT; (g(), g())"),
+            ("first element used", "a := IT $]; a[0]"),
+        ] {
+            let (it2, c2) = (it.clone(), ctext.to_string());
+            v.push(stmt_c(&format!("odd-iterator:{rname}:{cname}"), 1, move |o| format!("it := {}; r := {{ {} }}; return r;", it2.replace("OPERAND", &o[0]), c2.replace("IT", "it"))));
+        }
+    }
+    // a documented run-time error raised inside a callback, a predicate or a hand-written iterator
+    // ends the consumer with that error, whichever consumer drives the source
+    for (sname, stext, kind) in [
+        ("map-callback", "[1, 0, OPERAND]~ @ (v: int) -> int { return 10 / v }", "int"),
+        ("filter-predicate", "[1, 0, OPERAND]~ ? (v: int) -> bool { return 10 / v > 0 }", "int"),
+        ("user-iterator", "{ i := mut 2; () -> (bool, int) { i -= 1; return (true, OPERAND / *i) } }", "int"),
+        ("map-callback-index", "[0, 5, OPERAND]~ @ (v: int) -> float { return [1.5][v] }", "float"),
+        ("map-callback-shift", "[1, 64, OPERAND]~ @ (v: int) -> bool { return 1 << v > 0 }", "bool"),
+        ("map-callback-string", "[0, 3, OPERAND]~ @ (v: int) -> string { return \"ab\"[v] }", "string"),
+    ] {
+        let consumers: Vec<(&str, &str)> = match kind {
+            "int" => vec![("$+", "IT $+"), ("$*", "IT $*"), ("$&", "IT $&"), ("$|", "IT $|"), ("$]", "IT $]"), ("$ init", "IT $ 0 (a: int, e: int) -> int { return a + e }"), ("for", "for e in IT { }; 0"), ("partition", "IT \\ (e: int) -> bool { return e > 0 }"), ("second stage", "IT @ (e: int) -> int { return e } $+")],
+            "float" => vec![("$+", "IT $+"), ("$*", "IT $*"), ("$]", "IT $]")],
+            "bool" => vec![("$&&", "IT $&&"), ("$||", "IT $||"), ("$]", "IT $]")],
+            _ => vec![("$+", "IT $+"), ("$]", "IT $]")],
+        };
+        for (cname, ctext) in consumers {
+            let (s2, c2) = (stext.to_string(), ctext.to_string());
+            v.push(stmt_c(&format!("failing-source:{sname}:{cname}"), 1, move |o| format!("it := {}; r := {{ {} }}; return r;", s2.replace("OPERAND", &o[0]), c2.replace("IT", "it"))));
+        }
+    }
+    // a binder that re-uses the spelling of the first operand, then the operand is read *after*
+    // the construct (taken and not taken): the name means the operand again, with its type
+    for t in palette::position_types() {
+        let ts = t.print();
+        for (name, text) in [
+            ("match-arm", "m := match OTHER { a: TYPE => 0, => 1, }; return (m, FIRST);"),
+            ("match-arm-value", "m := match OTHER { a: TYPE => a, => OTHER, }; return (m, FIRST);"),
+            ("if-set", "if a: TYPE = OTHER { }; return FIRST;"),
+            ("if-set-else", "m := if a: TYPE = OTHER { 0 } else { 1 }; return (m, FIRST);"),
+            ("while-set", "while a: TYPE = OTHER { break }; return FIRST;"),
+            ("for", "for a in [OTHER]~ { }; return FIRST;"),
+            ("destructuring-in-block", "{ (a, zz) := (OTHER, 1) }; return FIRST;"),
+            ("callback-parameter", "m := [OTHER]~ @ (a: any) -> any { return a } $]; return (m, FIRST);"),
+        ] {
+            let (ts2, text) = (ts.clone(), text.to_string());
+            v.push(stmt_c(&format!("shadow-then-read:{name}:{ts}"), 2, move |o| text.replace("TYPE", &ts2).replace("OTHER", &o[1]).replace("FIRST", &o[0])));
+        }
+    }
     v
 }
 
@@ -408,16 +472,16 @@ pub struct GridResult {
 
 /// C03 (d): every construct x every palette type assignment through the checker and `return_type()`.
 /// source texts of (up to two) constants of type `t`, simplest first, computed once per type
-fn literal_candidates(t: &Ty) -> Vec<&'static str> {
+fn literal_candidates(t: &Ty, take: usize) -> Vec<&'static str> {
     use std::collections::HashMap;
     use std::sync::Mutex;
-    static CACHE: Mutex<Option<HashMap<Ty, Vec<&'static str>>>> = Mutex::new(None);
-    if let Some(v) = CACHE.lock().unwrap().get_or_insert_with(HashMap::new).get(t) {
+    static CACHE: Mutex<Option<HashMap<(Ty, usize), Vec<&'static str>>>> = Mutex::new(None);
+    if let Some(v) = CACHE.lock().unwrap().get_or_insert_with(HashMap::new).get(&(t.clone(), take)) {
         return v.clone();
     }
     let mut values = Values::new();
-    let v: Vec<&'static str> = values.admitted(t, 1).into_iter().filter(|&i| !RECIPES[i].stateful || RECIPES[i].src.starts_with("mut ") || RECIPES[i].src.ends_with('~')).take(2).map(|i| RECIPES[i].src).collect();
-    CACHE.lock().unwrap().get_or_insert_with(HashMap::new).insert(t.clone(), v.clone());
+    let v: Vec<&'static str> = values.admitted(t, 1).into_iter().filter(|&i| !RECIPES[i].stateful || RECIPES[i].src.starts_with("mut ") || RECIPES[i].src.ends_with('~')).take(take).map(|i| RECIPES[i].src).collect();
+    CACHE.lock().unwrap().get_or_insert_with(HashMap::new).insert((t.clone(), take), v.clone());
     v
 }
 
@@ -455,10 +519,12 @@ pub fn check_only(thorough: bool) -> GridResult {
             // the same construct over constants (the folder then works on them): the first two
             // recipes of every operand type, all combinations
             if st.accepted > before {
-                let lit_cands: Vec<Vec<&str>> = tys.iter().map(|t| literal_candidates(t)).collect();
+                // operators: four literals per slot (0, 1, -1, MIN_INT for ints), everything else two
+                let take = if c.name.starts_with("bin:") || c.name.starts_with("prefix:") { 4 } else { 2 };
+                let lit_cands: Vec<Vec<&str>> = tys.iter().map(|t| literal_candidates(t, take)).collect();
                 if lit_cands.iter().all(|c| !c.is_empty()) {
                     let total: usize = lit_cands.iter().map(|c| c.len()).product();
-                    for k in 0..total.min(8) {
+                    for k in 0..total.min(if take == 4 { 16 } else { 8 }) {
                         let mut kk = k;
                         let lits: Vec<&str> = lit_cands
                             .iter()
@@ -948,18 +1014,21 @@ impl Ctx {
         let tnames: Vec<String> = tys.iter().map(|t| t.print().replace('|', "/")).collect();
         let origin = format!("construct={}|types={}", c.name, tnames.join(";"));
         let Some(f) = self.define(&text, &origin) else { return };
+        // operators and cell updates get one more value per slot in the quick tier: the fourth
+        // rank-0 int is MIN_INT, and `MIN_INT op -1` is where wrapping arithmetic is decided
+        let per_slot = if self.per_slot <= 8 && (c.name.starts_with("bin:") || c.name.starts_with("cell-update:") || c.name.starts_with("prefix:")) { 4 } else { self.per_slot };
         let cands: Vec<Vec<usize>> = tys
             .iter()
             .map(|t| {
                 let max_rank = self.max_rank;
-                self.values.admitted(t, max_rank).into_iter().take(self.per_slot).collect()
+                self.values.admitted(t, max_rank).into_iter().take(per_slot).collect()
             })
             .collect();
         if cands.iter().any(|c| c.is_empty()) {
             return;
         }
         let total: usize = cands.iter().map(|c| c.len()).product();
-        let cap = if self.per_slot > 8 { 4096 } else { 27 };
+        let cap = if self.per_slot > 8 { 4096 } else if per_slot == 4 { 64 } else { 27 };
         for k in 0..total.min(cap) {
             let mut kk = k;
             let mut args = Vec::new();
